@@ -128,7 +128,7 @@ public:
     if(it == _end)
       return 0;
     usize count = 1;
-    for(Item* item = it.item->next; item && item->key == key; item = item->next)
+    for(Item* item = it.item->next; item != &endItem && item->key == key; item = item->next)
       ++count;
     return count;
   }
